@@ -198,8 +198,13 @@ func (x *c08) verifyCommit(what string, m *mcontract, logFrom int, e expectation
 		if !reflect.DeepEqual(append([]types.Hash256{}, c.Roots...), append([]types.Hash256{}, e.roots...)) {
 			return fmt.Errorf("%s: persisted roots %s, expected %s", what, rhpx.ShortRoots(c.Roots), rhpx.ShortRoots(e.roots))
 		}
-	} else if !reflect.DeepEqual(append([]proto4.AccountDeposit{}, c.Deposits...), append([]proto4.AccountDeposit{}, e.deposits...)) {
-		return fmt.Errorf("%s: credited %v, expected %v", what, c.Deposits, e.deposits)
+	} else {
+		if !reflect.DeepEqual(append([]proto4.AccountDeposit{}, c.Deposits...), append([]proto4.AccountDeposit{}, e.deposits...)) {
+			return fmt.Errorf("%s: credited %v, expected %v", what, c.Deposits, e.deposits)
+		}
+		if err := conserved(m.Rev, c); err != nil {
+			return fmt.Errorf("%s: %w", what, err)
+		}
 	}
 	m.commit(c.Revision)
 	if e.apply != nil {
@@ -1442,6 +1447,243 @@ func (x *c08) nest(op C08Op) error {
 	return x.staleBattery(m)
 }
 
+// nestx forces another RPC between the host's QUOTE of a replenish (accounts
+// or pools: the deposits announced in its first response) and the renter's
+// signature - one that changes a listed balance without touching the locked
+// contract: a read / verify paid from a listed account, or a fund / replenish
+// of the same key through ANOTHER contract. Both must complete. The host must
+// credit exactly the deposits it quoted and the renter signed for: the
+// revision moves their sum, the credit batch carries them, and every balance
+// ends at "before + what the nested RPC did + quoted deposit".
+func (x *c08) nestx(op C08Op) error {
+	if op.Race == nil || op.Race.Race == nil {
+		return nil
+	}
+	m := x.live(op.C)
+	if x.nonRevisable(m) {
+		x.cs.Class("nestx-skipped")
+		return nil
+	}
+	outerOp, innerOp := *op.Race, *op.Race.Race
+	outerOp.Corrupt, outerOp.C, outerOp.Old = "", op.C, false
+	if outerOp.Op != "repl-acct" && outerOp.Op != "repl-pool" {
+		return nil
+	}
+	pools := outerOp.Op == "repl-pool"
+	nkeys := len(x.Accts)
+	if pools {
+		nkeys = len(x.Pools)
+	}
+	keys := distinct(outerOp.Keys, nkeys)
+	if len(keys) == 0 {
+		keys = []int{0}
+	}
+	first := keys[0]
+
+	// the nested exchange
+	var runInner func() (rhpx.Result, error)
+	var innerExp *expectation
+	var innerOn *mcontract
+	var innerWhat string
+	var payCost proto4.Usage
+	payAcct := -1
+	switch innerOp.Op {
+	case "pay-read", "pay-verify":
+		if pools {
+			x.cs.Class("nestx-skipped")
+			return nil
+		}
+		payAcct = first
+		root := rootOf(mod(innerOp.Off, rhpx.PoolSize))
+		if innerOp.Op == "pay-read" {
+			payCost = x.Prices.RPCReadSectorCost(proto4.LeafSize)
+		} else {
+			payCost = x.Prices.RPCVerifySectorCost()
+		}
+		// make sure the account can pay (an honest, checked funding)
+		if x.Bal[payAcct].Cmp(payCost.RenterCost()) < 0 {
+			if err := x.rpcOn(C08Op{Op: "fund", Dep: []int{payAcct, 4}}, m); err != nil {
+				return err
+			}
+		}
+		innerWhat = fmt.Sprintf("%s paid from account %d", innerOp.Op, payAcct)
+		token := x.R.Token(x.AcctKeys[payAcct])
+		prices := x.Prices
+		runInner = func() (rhpx.Result, error) {
+			if innerOp.Op == "pay-read" {
+				r := x.R.Read(prices, token, root, 0, proto4.LeafSize, rhpx.Script{})
+				if r.Done && !r.ProofOK {
+					return r.Result, fmt.Errorf("nested read: proof does not verify")
+				}
+				return r.Result, nil
+			}
+			r := x.R.Verify(prices, token, root, 7, rhpx.Script{})
+			return r.Result, nil
+		}
+	default:
+		// fund / replenish of the same key through another contract
+		var other *mcontract
+		for i := range x.C {
+			if c := x.live(i); c.ID != m.ID && !x.nonRevisable(c) {
+				other = c
+			}
+		}
+		if other == nil {
+			x.cs.Class("nestx-skipped")
+			return nil
+		}
+		q := innerOp
+		q.Corrupt, q.Old = "", false
+		switch {
+		case pools:
+			q.Op, q.Keys = "repl-pool", []int{first}
+		case q.Op == "repl-acct":
+			q.Keys = []int{first}
+		default:
+			q.Op = "fund"
+			q.Dep = []int{first, innerOp.Target}
+		}
+		ei, err := x.prepare(q, other)
+		if err != nil {
+			return err
+		}
+		exp, derr := ei.expect()
+		if derr != nil || ei.noop {
+			x.cs.Class("nestx-skipped")
+			return nil
+		}
+		innerExp, innerOn, innerWhat = &exp, other, ei.kind+": "+ei.what+" through the other contract"
+		runInner = func() (rhpx.Result, error) {
+			r, _, _ := ei.run(nil)
+			return r, nil
+		}
+	}
+
+	// the quote is computed from the balances as they are now
+	outerOp.Keys = keys
+	eo, err := x.prepare(outerOp, m)
+	if err != nil {
+		return err
+	}
+	expO, derr := eo.expect()
+	if derr != nil || eo.noop {
+		x.cs.Class("nestx-skipped")
+		return nil
+	}
+	what := fmt.Sprintf("{%s} issued between the host's quote and the renter's signature of {%s: %s}", innerWhat, eo.kind, eo.what)
+	logFrom := x.H.Log.Len()
+	var innerRes rhpx.Result
+	var innerErr error
+	ran := false
+	outerRes, _, _ := eo.run(&rhpx.Tamper{AfterFirstResponse: func() { ran = true; innerRes, innerErr = runInner() }})
+	if !x.H.Client.WaitIdle(rhpx.Watchdog) || outerRes.Infra != nil || innerRes.Infra != nil {
+		x.cs.Inconclusive("watchdog")
+		return errInconclusive
+	}
+	x.cs.Class("nestx:" + innerOp.Op + "-inside-" + eo.kind)
+	if innerErr != nil {
+		return fmt.Errorf("%s: %w", what, innerErr)
+	}
+	if !ran || !outerRes.Done || !innerRes.Done {
+		return fmt.Errorf("%s: both are honest, affordable and touch different contracts / no contract, but did not both complete (outer %v, nested %v)", what, outerRes, innerRes)
+	}
+	calls := x.H.Log.Since(logFrom)
+	commits := successfulCommits(calls)
+	pick := func(id types.FileContractID) []rhpx.Call {
+		var out []rhpx.Call
+		for _, c := range commits {
+			if c.ContractID == id {
+				out = append(out, c)
+			}
+		}
+		return out
+	}
+	// the nested exchange first (it was committed first)
+	if innerExp != nil {
+		ic := pick(innerOn.ID)
+		if len(ic) != 1 || len(commits) != 2 {
+			return fmt.Errorf("%s: %d commits recorded (%d on the other contract), one per contract expected", what, len(commits), len(ic))
+		}
+		if err := x.checkCommitCall(what+" [nested]", innerOn, ic[0], *innerExp); err != nil {
+			return err
+		}
+	} else {
+		if len(commits) != 1 {
+			return fmt.Errorf("%s: %d commits recorded, one expected", what, len(commits))
+		}
+		debits := 0
+		for _, c := range calls {
+			if c.Op == "DebitAccount" && !c.Failed() {
+				debits++
+				if c.Account != x.Accts[payAcct] || c.Usage != payCost {
+					return fmt.Errorf("%s: nested debit %+v of %v, expected %+v of account %d", what, c.Usage, c.Account, payCost, payAcct)
+				}
+			}
+		}
+		if debits != 1 {
+			return fmt.Errorf("%s: %d successful debits, one expected", what, debits)
+		}
+		x.Bal[payAcct] = x.Bal[payAcct].Sub(payCost.RenterCost())
+	}
+	oc := pick(m.ID)
+	if len(oc) != 1 {
+		return fmt.Errorf("%s: %d commits on the replenished contract", what, len(oc))
+	}
+	// the credit batch must carry the QUOTED deposits (expO was derived before
+	// the nested exchange ran), and the revision must move exactly their sum
+	if err := x.checkCommitCall(what, m, oc[0], expO); err != nil {
+		return err
+	}
+	x.cs.Class("nestx-both-committed")
+	return x.after(what, nil, m)
+}
+
+// checkCommitCall is verifyCommit for one given recorded call.
+func (x *c08) checkCommitCall(what string, m *mcontract, c rhpx.Call, e expectation) error {
+	if c.Op != e.op {
+		return fmt.Errorf("%s: committed through %s, expected %s", what, c.Op, e.op)
+	}
+	if got, want := nosig(c.Revision), nosig(e.rev); !reflect.DeepEqual(got, want) {
+		return fmt.Errorf("%s: the committed revision is not core's derivation from the previous revision and what was sent: %s", what, revDiff(want, got))
+	}
+	if err := pairInvariant(m.Rev, c.Revision, x.tipState()); err != nil {
+		return fmt.Errorf("%s: %w", what, err)
+	}
+	if c.Usage != e.usage {
+		return fmt.Errorf("%s: recorded usage %+v, core's price functions give %+v", what, c.Usage, e.usage)
+	}
+	if e.op != "ReviseV2Contract" {
+		if !reflect.DeepEqual(append([]proto4.AccountDeposit{}, c.Deposits...), append([]proto4.AccountDeposit{}, e.deposits...)) {
+			return fmt.Errorf("%s: the host credited %v but quoted (and the renter signed for) %v", what, c.Deposits, e.deposits)
+		}
+		if err := conserved(m.Rev, c); err != nil {
+			return fmt.Errorf("%s: %w", what, err)
+		}
+	}
+	m.commit(c.Revision)
+	if e.apply != nil {
+		e.apply()
+	}
+	x.commits++
+	return nil
+}
+
+// conserved: a credit batch moves exactly its total from the renter payout to
+// the host payout of the revision that carries it.
+func conserved(prev types.V2FileContract, c rhpx.Call) error {
+	var total types.Currency
+	for _, d := range c.Deposits {
+		var o bool
+		if total, o = total.AddWithOverflow(d.Amount); o {
+			return fmt.Errorf("credited deposits %v overflow", c.Deposits)
+		}
+	}
+	if prev.RenterOutput.Value.Cmp(c.Revision.RenterOutput.Value) < 0 || !prev.RenterOutput.Value.Sub(c.Revision.RenterOutput.Value).Equals(total) {
+		return fmt.Errorf("credits applied total %v but the signed revision lowers the renter payout %v -> %v", total, prev.RenterOutput.Value, c.Revision.RenterOutput.Value)
+	}
+	return nil
+}
+
 func twoRoundC08(kind string) bool {
 	switch kind {
 	case "append", "free", "repl-acct", "repl-pool":
@@ -1545,6 +1787,8 @@ func (x *c08) step(op C08Op) error {
 		return x.race(op)
 	case "nest":
 		return x.nest(op)
+	case "nestx":
+		return x.nestx(op)
 	}
 	return x.rpc(op)
 }
@@ -1591,7 +1835,7 @@ func runC08(c C08Case, cs *kit.CaseStats) error {
 
 func genC08Op(t *rapid.T, nc int, allowRace bool) C08Op {
 	op := C08Op{C: rapid.IntRange(0, nc-1).Draw(t, "c")}
-	k := rapid.IntRange(0, 42).Draw(t, "op")
+	k := rapid.IntRange(0, 44).Draw(t, "op")
 	switch {
 	case k < 6:
 		op.Op = "fund"
@@ -1641,6 +1885,23 @@ func genC08Op(t *rapid.T, nc int, allowRace bool) C08Op {
 			op.Op = "minepast"
 			op.Len = rapid.SampledFrom([]int{0, 0, 0, 1}).Draw(t, "expire")
 		}
+	case k >= 43:
+		if !allowRace {
+			op.Op = "latest"
+			return op
+		}
+		// a balance-changing RPC forced between a replenish quote and the signature
+		op.Op = "nestx"
+		outer := C08Op{Op: rapid.SampledFrom([]string{"repl-acct", "repl-acct", "repl-pool"}).Draw(t, "xouter"), Target: rapid.IntRange(2, len(amountTable)-1).Draw(t, "xtarget")}
+		nk := rapid.IntRange(1, 3).Draw(t, "xnkeys")
+		for i := 0; i < nk; i++ {
+			outer.Keys = append(outer.Keys, rapid.IntRange(0, 2).Draw(t, "xkey"))
+		}
+		inner := C08Op{Op: rapid.SampledFrom([]string{"pay-read", "pay-verify", "fund", "repl-acct", "repl-pool"}).Draw(t, "xinner"),
+			Target: rapid.IntRange(0, len(amountTable)-1).Draw(t, "xamt"), Off: rapid.IntRange(0, 15).Draw(t, "xsector")}
+		outer.Race = &inner
+		op.Race = &outer
+		return op
 	case k >= 42:
 		op.Op = "stash"
 		return op
@@ -1705,7 +1966,7 @@ func genC08Op(t *rapid.T, nc int, allowRace bool) C08Op {
 		var chain *C08Op
 		for i := 0; i < n; i++ {
 			p := genC08Op(t, nc, false)
-			for p.Op == "latest" || p.Op == "mine" || p.Op == "minepast" || p.Op == "confirm" || p.Op == "settings" || p.Op == "stash" || p.Op == "minenear" || p.Op == "renew" || p.Op == "refresh-full" || p.Op == "refresh-partial" {
+			for p.Op == "latest" || p.Op == "mine" || p.Op == "minepast" || p.Op == "confirm" || p.Op == "settings" || p.Op == "stash" || p.Op == "minenear" || p.Op == "nestx" || p.Op == "renew" || p.Op == "refresh-full" || p.Op == "refresh-partial" {
 				p = C08Op{Op: "fund", Dep: []int{rapid.IntRange(0, 2).Draw(t, "racct"), rapid.IntRange(0, 3).Draw(t, "ramt")}}
 			}
 			p.Corrupt, p.Race = "", chain
@@ -1754,7 +2015,7 @@ func genC08(t *rapid.T) C08Case {
 
 var c08Prop = kit.Prop[C08Case]{
 	ID:   "C08",
-	Rule: "sequences (2..20, thorough 2..40) of contracts mined to within 1..18 blocks of their proof height with renew / refresh requests built at the current tip and at an older real basis with an equally old, still valid price table (judged by the rule of core at the tip of the HOST), operator settings changes at runtime (MaxCollateral, MaxContractDuration, AcceptingContracts, prices; every later renew / refresh judged by core's request validation against the settings in force when it arrives, price tables staying valid until they expire), fund, replenish accounts/pools, append, free, sector-roots, latest-revision, renew, refresh (full/partial), mine, broadcasting and mining an older doubly-signed revision while newer ones exist, 2-3-way races of honest RPCs and forced interleavings (a second RPC on the same contract issued exactly while the host waits for the second renter message of a renew, refresh, append, free or replenish) on 1-2 contracts against the real rhp4.Server, every revising RPC kind re-issued against a contract after it was renewed / refreshed or after the chain was mined past its proof height (must be refused, nothing signed or persisted), each RPC honest or with exactly one corruption (challenge: garbage / zero / other key / number -1 / +1 / replayed; renter signature: garbage / zero / other key / over another amount, root or number / replayed; replayed request; price table signed by another key / expired / altered; request for another contract; out-of-range indices, offsets, lengths; zero, missing or overflowing deposits and targets; honest-looking deposit lists and replenish targets at the edges of the 128-bit range (2^64-1, 2^64, 2^127, 2^128-1-k; sums that overflow early, late, or wrap to something affordable - the renter then signs the wrapped total); renewal parameters out of bounds; renewal funded with inputs whose signatures are invalid or that are double-spent through the pool), the rest of the exchange carried on honestly. Oracle over the recorded Contractor calls: every committed revision equals core's ReviseFor*/Renew*/Refresh* applied by the harness to the previous revision and the arguments it sent, is doubly signed, monotone and value conserving; corrupted or underivable requests change nothing and trigger no mutating call; the latest revision validates under core as a revision of the on-chain element. Non-trivial = >= 2 committed revisions and >= 1 rejected corrupted/replayed request in one sequence; distinct by hash of the case.",
+	Rule: "sequences (2..20, thorough 2..40) of balance-changing RPCs (account-paid read / verify, fund / replenish through another contract) forced between a replenish quote and the signature (the host must credit exactly what it quoted; revision delta == credits applied), contracts mined to within 1..18 blocks of their proof height with renew / refresh requests built at the current tip and at an older real basis with an equally old, still valid price table (judged by the rule of core at the tip of the HOST), operator settings changes at runtime (MaxCollateral, MaxContractDuration, AcceptingContracts, prices; every later renew / refresh judged by core's request validation against the settings in force when it arrives, price tables staying valid until they expire), fund, replenish accounts/pools, append, free, sector-roots, latest-revision, renew, refresh (full/partial), mine, broadcasting and mining an older doubly-signed revision while newer ones exist, 2-3-way races of honest RPCs and forced interleavings (a second RPC on the same contract issued exactly while the host waits for the second renter message of a renew, refresh, append, free or replenish) on 1-2 contracts against the real rhp4.Server, every revising RPC kind re-issued against a contract after it was renewed / refreshed or after the chain was mined past its proof height (must be refused, nothing signed or persisted), each RPC honest or with exactly one corruption (challenge: garbage / zero / other key / number -1 / +1 / replayed; renter signature: garbage / zero / other key / over another amount, root or number / replayed; replayed request; price table signed by another key / expired / altered; request for another contract; out-of-range indices, offsets, lengths; zero, missing or overflowing deposits and targets; honest-looking deposit lists and replenish targets at the edges of the 128-bit range (2^64-1, 2^64, 2^127, 2^128-1-k; sums that overflow early, late, or wrap to something affordable - the renter then signs the wrapped total); renewal parameters out of bounds; renewal funded with inputs whose signatures are invalid or that are double-spent through the pool), the rest of the exchange carried on honestly. Oracle over the recorded Contractor calls: every committed revision equals core's ReviseFor*/Renew*/Refresh* applied by the harness to the previous revision and the arguments it sent, is doubly signed, monotone and value conserving; corrupted or underivable requests change nothing and trigger no mutating call; the latest revision validates under core as a revision of the on-chain element. Non-trivial = >= 2 committed revisions and >= 1 rejected corrupted/replayed request in one sequence; distinct by hash of the case.",
 	Assumptions: []string{
 		"host = rhp4.Server over the repository's reference EphemeralContractor (which itself re-checks signatures and revision numbers) on the all-v2 test network, in-memory transport",
 		"expired price tables are produced by signing a table with a past ValidUntil with the host key (the harness holds it); no sleeping",
